@@ -118,7 +118,7 @@ var commitKinds = []string{
 	"slot-commit>nil", "slot-commit>absent-keepdata", "slot-commit>absent", "slot-nil>commit", "slot-absent>commit-nodata", "slot-flag-0", "slot-flag-4",
 	"slot-nil>absent", "slot-commit>absent+retime", "slot-nil>absent+retime",
 	"slot-addr-member", "slot-addr-outsider", "slot-addr-short", "slot-addr-empty",
-	"slot-ts+1ns", "slot-ts-zero", "slot-ts-resigned", "slot-ts-resigned+retime",
+	"slot-ts+1ns", "slot-ts-zero", "slot-ts-resigned", "slot-ts-resigned+retime", "slot-ts-far-resigned", "slot-ts-far-resigned+retime",
 	"slot-sig-flip", "slot-sig-trunc", "slot-sig-empty", "slot-sig-65", "slot-sig-otherkey", "slot-sig-swap",
 	"slots-swap", "slots-drop-last", "slots-append-absent", "slots-append-signed",
 	"commit-wrongset-keys", "commit-wrongset-current", "commit-nil",
@@ -462,6 +462,23 @@ func (e *env) apply(t *rapid.T, kind string, b *types.Block) (ok bool, detail st
 			s.ValidatorAddress = nil
 		}
 		detail = fmt.Sprint(i)
+	case "slot-ts-far-resigned", "slot-ts-far-resigned+retime":
+		// one validator's precommit re-stamped centuries away (valid signature): the median may or may not move
+		if lib.IsKnown(findingWrap) {
+			lib.ExcludedByKnown(findingWrap)
+			return false, ""
+		}
+		i := pickSlot(t, c, isPresent, "slot")
+		if i < 0 {
+			return false, ""
+		}
+		fk := rapid.SampledFrom(farKinds).Draw(t, "farkind")
+		c.Signatures[i].Timestamp = farTime(c.Signatures[i].Timestamp, fk)
+		e.resign(c, i, e.lastVals())
+		if kind == "slot-ts-far-resigned+retime" {
+			e.retime(b)
+		}
+		detail = fmt.Sprint(i, fk)
 	case "slot-ts+1ns", "slot-ts-zero", "slot-ts-resigned", "slot-ts-resigned+retime":
 		i := pickSlot(t, c, isPresent, "slot")
 		if i < 0 {
